@@ -30,16 +30,23 @@ def chk(pid, text, ref, technique, note):
 chk("C16", "Seeded search over build-farm histories: source trees drift by accumulated token/line edits, files of the import closure are deleted, torn (prefix saves), replaced by directories/dangling links/symlink loops, fail to read, or change between two reads of one compilation, in warm compiler workers; every build must end in output or located, renderable errors. Evidence, not proof.", "DESIGN.md 3.5, 5 (C16)", "deterministic simulation of a build farm with disk-fault injection (seeded scheduler over real compiler processes)", A_NOTE)
 chk("C17", "Seeded search over worker hash seeds, worker histories, crashes/restarts, repetition, import-directory permutations/duplicates and one-vs-two-process pipelines: every execution of a job must be byte-identical to the same job in a fresh PYTHONHASHSEED=0 process (anonymous identifiers up to numbering on warm workers). Evidence, not proof.", "DESIGN.md 3.3, 5 (C17)", "deterministic simulation of a build farm: same job replayed across seeded process histories and configurations, compared with a fresh-process oracle", A_NOTE)
 chk("C18", "Durability reading: the JSON file is the only state crossing the process boundary. For every accepted build the IR is round-tripped in-process and the back end is run in a different worker (other hash seed/history, possibly just restarted) from the JSON alone; headers and re-serialisations must agree with the in-process pipeline and with embossc. Evidence, not proof.", "DESIGN.md 3.4, 5 (C18)", "deterministic simulation of a split build pipeline across seeded worker processes with crash/restart between the halves", A_NOTE)
+B_NOTE = "Trusted: the reference model (worldb/model.py, model2.py), written from the documents and corrected against them where the documents are silent (DESIGN.md section 8); clang 14 sanitizers; x86-64 only. Sampling, not enumeration (the prefix-length axis of a message is enumerated in the thorough tier)."
+chk("C01", "Seeded simulation of a receiver framing messages from a byte stream: generated protocol modules (swarm-varied features) are compiled by the real compiler, and after every delivery (arbitrary chunking, truncation, bit flips, garbage, oversize, odd alignment) the full observation of the generated view is compared with an independent reference model; everything reported as known from a prefix must persist in longer prefixes; a valid message must end Ok and complete. Evidence, not proof.", "DESIGN.md 4, 5 (C01)", "deterministic simulation of a byte link with fault injection; reference model as oracle; history (prefix-monotonicity) check", B_NOTE)
+chk("C03", "Seeded operation histories on a sender's shared buffer (valid, truncated, flipped, oversized): CouldWriteValue/TryToWrite of boundary values through physical fields, array elements, nested fields, aliases and +/- transforms are compared with the model's verdict, the arena bytes after every write with the model's arena, and the follow-up observation with the model. Evidence, not proof.", "DESIGN.md 4, 5 (C03)", "deterministic simulation: seeded write histories on shared buffers with truncation/corruption faults; reference model as oracle", B_NOTE)
+chk("C04", "Fault-driven: every scenario kind (streams, writes, copies, compares, text dump/restore, null views) on hostile buffers (random length and content, truncated, flipped, misaligned) with every buffer an exact ASan-poisoned extent; oracle = no AddressSanitizer/UBSan report and no runtime CHECK abort in the driver process. Evidence, not proof.", "DESIGN.md 4, 5 (C04)", "deterministic simulation with fault injection; sanitizer-instrumented real code as oracle", B_NOTE)
+chk("C06", "Snapshot/restore over a faultable text channel: WriteToString in every re-readable option set -> channel (fault-free, or EOF/dropped/duplicated/changed character) -> UpdateFromText into a zeroed buffer; fault-free restores must succeed and every emitted field must read back equal (and Equals when nothing is skipped); independently generated literal texts in the documented format must restore to the model's bytes; out-of-range or malformed numbers must be rejected. Evidence, not proof.", "DESIGN.md 4, 5 (C06)", "deterministic simulation of a text channel with fault injection; round-trip and reference-model oracles", B_NOTE)
+chk("C20", "Receiver-side history over arenas: frames copied into slots of every relative size, overlapping copies in both directions (compaction), compares of frames that differ in covered bits, only in padding, in presence pattern or in length; TryToCopyFrom result, destination and source bytes after the copy (memmove semantics, untouched bytes) and Equals (both directions) are compared with the model. Evidence, not proof.", "DESIGN.md 4, 5 (C20)", "deterministic simulation: seeded copy/compare histories over shared and overlapping buffers; reference model as oracle", B_NOTE)
+checks.sort(key=lambda c: c["property_id"])
 m = {
  "version": 1,
  "setup_cmd": "/venv/bin/python bin/check.py setup",
  "hooks": {"guard": "EMBOSS_VERIF", "enable": "no source hooks are used: every seam is reachable from outside (file_reader callable, command-line flags, real files on a tmpfs, template parameters)", "baseline_off_cmd": "cd /repo && /venv/bin/python -m pytest -ra -q -p no:cacheprovider --timeout=900 --continue-on-collection-errors", "source_commits": [], "add_only": True},
  "engines": [
   {"name": "world_a_buildfarm", "path": "worlda/", "serves_properties": ["C16","C17","C18"], "kind_free_text": "seeded scheduler over a tmpfs source tree and long-lived compiler worker processes forked from per-PYTHONHASHSEED zygotes; disk faults, worker crashes, races between reads; fresh-process oracle"},
+  {"name": "world_b_wire", "path": "worldb/", "serves_properties": ["C01","C03","C04","C06","C20"], "kind_free_text": "seeded protocol-module generator + independent reference model + generated C++ driver built with ASan/UBSan; scripts of deliveries, flips, writes, copies, compares, text dump/restore on exact poisoned buffers"},
  ],
  "checks": checks,
- "notes": "See DESIGN.md. Genuine defects found are in known_findings.json (all repaired by 'fix:' commits in /repo so far).",
- "not_applicable": [{"property_id": k, "reason": v} for k, v in sorted(NA.items())] + [
-   {"property_id": p, "reason": "not yet claimed: the World B machinery (generated protocol modules, reference model, sanitizer-built C++ driver) is under construction in this session"} for p in ("C01","C03","C04","C06","C20")],
+ "notes": "See DESIGN.md. Genuine defects found are in known_findings.json ('fixed' entries repaired by 'fix:' commits in /repo; 'known' entries are printed as KNOWN-FINDING lines).",
+ "not_applicable": [{"property_id": k, "reason": v} for k, v in sorted(NA.items())],
 }
 json.dump(m, open('/verif/MANIFEST.json','w'), indent=1)
